@@ -285,7 +285,6 @@ func VerifHarness_C01_O8() {
 // indexes consecutive from zero, round-received strictly increasing.
 func VerifHarness_C02_O5() { VerifHarness_C01_O8() }
 
-
 // C04/O6 — the same bounded system-level run, for causality: committed order
 // extends the ancestry computed from the parent links.
 func VerifHarness_C04_O6() { VerifHarness_C01_O8() }
